@@ -159,7 +159,7 @@ def interface_continuity(model, res):
         res.obligations += 1
         res.evaluations += 1
         res.nontrivial += 1
-        if got is not NAN and want is not NAN and got.key() == want.key():
+        if got is not NAN and want is not NAN and ev.equal(got, want):
             res.discharged += 1
             res.sample({'rule': 'C13.interface-continuity', 'check': label, 'normal_form': want.key()[:140]})
         else:
